@@ -98,6 +98,8 @@ FIXED = [
      'explain() after a second evaluate() on another log still reported (and merged) the intervals of the first log: a specification satisfied on the new log reported the old violation'),
     ('F27', ['C20'], 'fix: explain() read the bounds of timed operators as sample counts',
      "explain() passed the bounds of timed operators to the explanation functions as they are written (durations with their units) instead of sample counts: with a sampling period other than one default unit or bounds with explicit units (eventually[250ms,250ms] at 0.25 s sampling) the reported intervals were not a sufficient cause"),
+    ('F28', ['C08', 'C09', 'C17'], 'fix: a temporal bound given by a constant with a numeric (float) value',
+     "declare_const('B', 'float', 0.1) used as a bound (once[0,B]) at a 100 ms sampling period: the value went through Fraction(Decimal(0.1)), i.e. the binary expansion of the float, and evaluate()/update()/pastify() rejected the specification as 'not a multiple of the sampling period', while the literal [0,0.1] and the constant declared as '0.1' were accepted (found by the run environment const_bounds, round l)"),
 ]
 
 OPEN = [
